@@ -119,8 +119,8 @@ func writeEvidence(env Env, ch *Check, rep *Report, tier string, wall float64, n
 	for set, m := range rep.Obs {
 		keys := SortedKeys(m)
 		ex := keys
-		if len(ex) > 40 {
-			ex = ex[:40]
+		if len(ex) > 64 {
+			ex = ex[:64]
 		}
 		var total uint64
 		for _, v := range m {
